@@ -67,6 +67,13 @@ CLAIMED = {
  "C12": dict(cat="model_checking", ref="6 C12",
    tech="TLC: CelLiteral decoder automaton with theorem Decode(Encode(s)) = s over all short strings x quoting styles x spelling choices; trace validation of every escape in every style executed by cel-rust; known findings as named KF_ actions",
    text="The literal decoder (prefixes, four quoting styles, raw forms, every escape family, surrogate / range rules, UTF-8 for bytes) is an explicit automaton; TLC checks that every spelling of every string of length <=2 over a 9-character alphabet decodes to that string. cel-rust compiles and evaluates every \\x, \\X, \\OOO, \\u (sampled in quick, all in thorough), boundary \\U and single-character escape in every style as string, bytes, raw and raw-bytes literal, malformed escapes, and random strings with random spelling; each value must equal the decoder's and each invalid literal must be a compile error. Three pinned/generated-code defects are modelled as KF_ actions and reported as KNOWN-FINDING."),
+ "C01": dict(cat="model_checking", ref="6 C01",
+   tech="TLC: CelLex + CelGrammar (transcription of CEL.g4) classify every short token string (CelSentenceMC); each string and seeded random texts / mutants are compiled by cel-rust and validated by CelParseTrace (accepted => sentence; rejected => positioned non-empty errors; panic never)",
+   text="The lexer and grammar of CEL.g4 are transcribed as a maximal-munch scanner and a recursive-descent recogniser in TLA+. TLC enumerates every string of <=3/4 tokens over a 16-token alphabet; cel-rust compiles each, plus random character strings up to 4 KiB, random token sequences, valid expressions and their single-token mutants, nesting to depth 32 and malformed probes (multi-line macro errors included). An accepted text must be a sentence of the transcription, a rejection must carry >=1 error with non-empty text and a position inside the source, parser and Program::compile must agree, and a panic event has no spec action.",
+   note="Termination of the ANTLR runtime is observed (inputs up to 4 KiB, nesting 32), not proved; the lexer model transcribes the .g4 rules, not the generated cellexer.rs. " + NOTE_COMMON),
+ "C04": dict(cat="model_checking", ref="6 C04",
+   tech="TLC: theorem Parse(RenderFull(t)) = Parse(RenderMin(t)) = t for every small tree (CelParseMC: printer CelRender vs grammar transcription CelGrammar); every rendered pair parsed by cel-rust and compared with the model's tree; trace validation of chains, prefix runs and random decorated trees",
+   text="A precedence-aware printer (full and minimal parentheses) and the grammar transcription are checked against each other by TLC on every tree with <=2/3 operators from the complete operator set, macros expanded around their receiver/arguments. cel-rust parses both renderings of each tree and must return the model's tree; additionally every && / || chain up to 64 operands, prefix runs up to 6, precedence probes and random trees of depth <=7 (also with redundant parentheses, whitespace and comments) must yield the AST the transcription assigns to the text (chains compared flattened, source order kept)."),
 }
 
 def main():
